@@ -21,7 +21,7 @@ impl Property for C05 {
         vec!["the generator's scoping rules were audited against llvm-tblgen-14 (800 clean programs accepted modulo LLVM-14-unknown operators/dump; probes rejected with 'Variable not defined')".into()]
     }
     fn families(&self, ctx: &Ctx) -> Vec<Family> {
-        vec![Family::new("sem-programs", ctx.tier.pick(500, 30000), |_c, rng, emit| {
+        vec![Family::new("sem-programs", ctx.tier.pick(500, 80000), |_c, rng, emit| {
             for _ in 0..50 {
                 if !emit(sem_case(rng, true)) {
                     return;
